@@ -111,6 +111,56 @@ pub fn write_form(buf: &mut emit_file::FileBuf, bytes: &[u8], form: i64) -> io::
     Ok(())
 }
 
+/// Size of every record when the separator is not the one-byte default (spec/MCFileSetTraceSep.tla,
+/// spec/MCFileEmitterTraceSep.tla): the event's text is padded so that text + tail come to this.
+pub const SEP_REC: usize = 8;
+
+/// The bytes of the specification's symbols after an event's text ("cr", "lf"; "x" is the text).
+pub fn tail_bytes(symbols: &[String]) -> Vec<u8> {
+    symbols
+        .iter()
+        .filter(|s| s.as_str() != "x")
+        .map(|s| match s.as_str() {
+            "cr" => b'\r',
+            "lf" => b'\n',
+            other => tool_error(&format!("unknown byte symbol {other}")),
+        })
+        .collect()
+}
+
+/// (what the writer outputs, the complete record the specification predicts) for event e:
+/// its text (a letter repeated) followed by the given tails; `total` = length of the record.
+pub fn ev_forms(e: i64, out_tail: &[u8], rec_tail: &[u8], total: usize) -> (Vec<u8>, Vec<u8>) {
+    let body = vec![b'a' + (e - 1) as u8; total - rec_tail.len()];
+    let (mut o, mut r) = (body.clone(), body);
+    o.extend_from_slice(out_tail);
+    r.extend_from_slice(rec_tail);
+    (o, r)
+}
+
+/// Project bytes to tokens given the complete records expected in this run and the separator.
+pub fn tokens_with(mut b: &[u8], expected: &[(i64, Vec<u8>)], sep: &[u8]) -> Vec<i64> {
+    let mut out = Vec::new();
+    'outer: while !b.is_empty() {
+        for (e, rec) in expected {
+            if b.starts_with(rec) {
+                out.push(*e);
+                b = &b[rec.len()..];
+                continue 'outer;
+            }
+        }
+        if b.starts_with(sep) {
+            out.push(0);
+            b = &b[sep.len()..];
+            continue;
+        }
+        let c = b[0];
+        out.push(if c >= b'a' && c < b'a' + EV_SIZE.len() as u8 { -((c - b'a') as i64 + 1) } else { GARBAGE });
+        b = &b[1..];
+    }
+    out
+}
+
 /// A lexical configuration: how abstract names are spelled.
 #[derive(Clone)]
 pub struct Lex {
@@ -167,6 +217,14 @@ pub fn lexes() -> Vec<Lex> {
                 "app.0000-catalog".into(),
                 "app.log".into(),
                 "unrelated.txt".into(),
+                // shaped like ours but for a period / counter / id that cannot be read: nobody's.
+                // The first sorts after all of ours (the first candidate for reuse), the second
+                // before all of ours (the first candidate for retention)
+                "app.20xx-12-31-22.00000000.0a000000.log".into(),
+                "app..00000000.0a000000.log".into(),
+                "app.1999-12-31-22.0000000x.0a000000.log".into(),
+                "app.1999-12-31-22.00000000.0a00000z.log".into(),
+                "app.1999-12-31-22.00000000.log".into(),
             ],
         },
         Lex {
@@ -184,6 +242,9 @@ pub fn lexes() -> Vec<Lex> {
                 "my.1999-12-30.00000005.0a000000.txt".into(),
                 "my.app.1999-12-30.txt".into(),
                 "my.app.0.0.0.0.txt".into(),
+                "my.app.yyyy-mm-dd.00000005.0a000000.txt".into(),
+                "my.app..00000005.0a000000.txt".into(),
+                "my.app.1999-12-30.00000005.0a000000.txt.bak".into(),
             ],
         },
     ]
@@ -269,6 +330,9 @@ struct FsState {
     /// end-to-end runs: open_new fails this many times once `ncalls` exceeds the index
     nocreate_from: Option<usize>,
     nocreate_left: usize,
+    /// end-to-end runs with their own framing: the complete record of every event and the
+    /// separator (else the default spelling of `ev_bytes`)
+    expected: Option<(Vec<(i64, Vec<u8>)>, Vec<u8>)>,
 }
 
 /// A filesystem call parks here while the filesystem is stalled.
@@ -297,9 +361,14 @@ impl StallGate {
 impl FsState {
     fn name_of(&self, path: &Path) -> (i64, String) {
         let s = path.to_str().unwrap_or("").replace('\\', "/");
-        let file = match s.strip_prefix(&format!("{}/", self.dir)) {
-            Some(f) => f.to_string(),
-            None => return (UNKNOWN, s),
+        // (a template without a directory: the worker's directory is the empty path)
+        let file = if self.dir.is_empty() {
+            s.clone()
+        } else {
+            match s.strip_prefix(&format!("{}/", self.dir)) {
+                Some(f) => f.to_string(),
+                None => return (UNKNOWN, s),
+            }
         };
         (self.names.get(&file).copied().unwrap_or(UNKNOWN), file)
     }
@@ -374,19 +443,19 @@ impl VerifFilesystem for MemFs {
         s.record("list".into(), NONE, 0, res.into());
         if res == "ok" {
             let dir = s.dir.clone();
-            let mut v: Vec<PathBuf> = s.files.keys().map(|f| PathBuf::from(format!("{dir}/{f}"))).collect();
+            let mut v: Vec<PathBuf> = s.files.keys().map(|f| if dir.is_empty() { PathBuf::from(f) } else { PathBuf::from(format!("{dir}/{f}")) }).collect();
             if s.names.values().any(|n| *n < 0 && *n != UNKNOWN) {
                 // (directories shared with siblings) entries a listing may also yield: one
                 // without a final name, and one whose name is not UTF-8 (it would be a member
                 // of the set if it were decoded lossily).  Nobody's files: to be skipped.
                 use std::os::unix::ffi::OsStringExt;
-                v.push(PathBuf::from(format!("{dir}/..")));
+                v.push(if dir.is_empty() { PathBuf::from("..") } else { PathBuf::from(format!("{dir}/..")) });
                 if let Some(own) = s.names.iter().find(|(_, n)| **n == 100).map(|(k, _)| k.clone()) {
                     let mut b = own.into_bytes();
                     if let Some(i) = b.iter().rposition(|c| *c == b'.') {
                         b[i - 1] = 0xff;
                     }
-                    let mut path = format!("{dir}/").into_bytes();
+                    let mut path = if dir.is_empty() { Vec::new() } else { format!("{dir}/").into_bytes() };
                     path.extend(b);
                     v.push(PathBuf::from(std::ffi::OsString::from_vec(path)));
                 }
@@ -477,7 +546,16 @@ impl VerifFile for MemHandle {
             return Err(ioerr(io::ErrorKind::Other, "injected after short write"));
         }
         let o = s.outcome();
-        let tok = token_of_buf(buf);
+        let tok = match &s.expected {
+            Some((exp, sep)) => {
+                if buf == &sep[..] {
+                    0
+                } else {
+                    exp.iter().find(|(_, r)| &r[..] == buf).map(|x| x.0).unwrap_or(GARBAGE)
+                }
+            }
+            None => token_of_buf(buf),
+        };
         let res = match o.as_str() {
             "ok" => "ok",
             "short" if buf.len() > 1 => "short",
@@ -1266,10 +1344,52 @@ pub mod inj {
     fn run_scenario(hooks: &Arc<ChanHooks>, scen: &Value, sid: u64, rng: &mut Rng, out: &mut impl std::io::Write) -> Meta {
         let t0 = Instant::now();
         let lexes = lexes();
-        let lex = lexes[rng.below(lexes.len() as u64) as usize].clone();
+        let mut lex = lexes[rng.below(lexes.len() as u64) as usize].clone();
+        // the template's form: "full" dir/prefix.ext; "noext" dir/prefix (the extension `log` is
+        // implied: only spellings whose extension is `log`); "nodir" prefix.ext (the directory
+        // is the empty path); "invalid" a template without a file name through the REAL
+        // FileSetBuilder::spawn: the emitter it returns is inert
+        let tpl = scen["tpl"].as_str().unwrap_or("full").to_string();
+        if tpl == "noext" && (lex.ext != "log" || lex.prefix.contains('.')) {
+            lex = lexes[rng.below(2) as usize].clone();
+        }
+        if tpl == "nodir" {
+            lex.dir = "";
+        }
+        let template = match tpl.as_str() {
+            "noext" => format!("{}/{}", lex.dir, lex.prefix),
+            "nodir" => format!("{}.{}", lex.prefix, lex.ext),
+            "invalid" => format!("{}/..", lex.dir),
+            _ => format!("{}/{}.{}", lex.dir, lex.prefix, lex.ext),
+        };
         let cap = scen["cap"].as_u64().unwrap() as usize;
         let max_files = scen["maxFiles"].as_u64().unwrap() as usize;
-        let max_size = scen["maxSize"].as_u64().unwrap() as usize;
+        // the separator and, for every way a writer may end its output, that output and the
+        // complete record (spec/FileFraming.tla, printed with the scenario); the events' writers
+        // take the endings in turn.  A multi-byte separator: records of SEP_REC bytes, and the
+        // size limits scaled with them ("two events" / "never")
+        let syms = |v: &Value| -> Vec<String> { v.as_array().map(|a| a.iter().filter_map(|x| x.as_str().map(String::from)).collect()).unwrap_or_default() };
+        let sep_bytes: Vec<u8> = if scen["sepBytes"].is_array() { tail_bytes(&syms(&scen["sepBytes"])) } else { b"\n".to_vec() };
+        let wide = sep_bytes != b"\n";
+        let sep_static: &'static [u8] = if wide { Box::leak(sep_bytes.clone().into_boxed_slice()) } else { b"\n" };
+        let mut ends: Vec<(String, Vec<u8>, Vec<u8>)> = match scen["framing"].as_object() {
+            Some(m) => m.iter().map(|(we, f)| (we.clone(), tail_bytes(&syms(&f["out"])), tail_bytes(&syms(&f["rec"])))).collect(),
+            None => vec![("none".into(), vec![], b"\n".to_vec()), ("sep".into(), b"\n".to_vec(), b"\n".to_vec())],
+        };
+        ends.sort();
+        let forms: Arc<HashMap<i64, (Vec<u8>, Vec<u8>)>> = Arc::new(
+            (1..=EV_SIZE.len() as i64)
+                .map(|e| {
+                    let (_, ot, rt) = &ends[(e as usize) % ends.len()];
+                    (e, ev_forms(e, ot, rt, if wide { SEP_REC } else { EV_SIZE[(e - 1) as usize] }))
+                })
+                .collect(),
+        );
+        let max_size = match (wide, scen["maxSize"].as_u64().unwrap() as usize) {
+            (false, m) => m,
+            (true, 8) => 2 * SEP_REC + 2,
+            (true, m) => m * 2,
+        };
         let reuse = scen["reuse"].as_bool().unwrap();
         let fault_kind = scen["fault"]["kind"].as_str().unwrap().to_string();
         let fault_at = scen["fault"]["at"].as_u64().unwrap() as usize;
@@ -1300,6 +1420,7 @@ pub mod inj {
             gate: Some(gate.clone()),
             nocreate_from: if fault_kind == "nocreate" { Some(fault_at) } else { None },
             nocreate_left: if fault_kind == "nocreate" { 12 } else { 0 },
+            expected: Some((forms.iter().map(|(e, f)| (*e, f.1.clone())).collect(), sep_bytes.clone())),
             ..Default::default()
         }));
         {
@@ -1312,39 +1433,51 @@ pub mod inj {
         *hooks.trace.lock().unwrap() = Some(trace.clone());
         hooks.exec_returned.store(false, Ordering::SeqCst);
 
-        let files = emit_file::verif::spawn_with(
-            MemFs(state.clone()),
-            EnvClock(env.clone()),
-            EnvRng(env.clone()),
-            format!("{}/{}.{}", lex.dir, lex.prefix, lex.ext),
-            lex.roll,
-            reuse,
-            max_files,
-            max_size,
-            b"\n",
-            move |buf, evt| {
+        let wforms = forms.clone();
+        let writer = move |buf: &mut emit_file::FileBuf, evt: &emit::Event<&dyn emit::props::ErasedProps>| -> io::Result<()> {
                 use emit::Props;
                 let e = evt.props().pull::<i64, _>("id").unwrap_or(0);
-                let bytes = ev_bytes(e);
+                let Some((out, _)) = wforms.get(&e) else {
+                    return Err(io::Error::new(io::ErrorKind::Other, "unknown event"));
+                };
                 if wfail_every > 0 && e % wfail_every == 0 {
                     // this event cannot be formatted: the writer fails, before any output or
-                    // after all of the payload but its last byte and separator
+                    // after all of the text but its last byte
                     if wfail_partial {
-                        write_form(buf, &bytes[..bytes.len() - 2], e)?;
+                        let text = out.iter().take_while(|b| b.is_ascii_lowercase()).count();
+                        write_form(buf, &out[..text - 1], e)?;
                     }
                     return Err(io::Error::new(io::ErrorKind::Other, "cannot format"));
                 }
-                // the form in which the payload is handed over varies with the event
-                if e % 2 == 0 {
-                    // this writer leaves the separator to the emitter for every second event
-                    write_form(buf, &bytes[..bytes.len() - 1], e / 2)
-                } else {
-                    write_form(buf, &bytes, e / 2)
+                // the ending is the one the scenario's framing table gives this event; the form
+                // in which the bytes are handed over varies with the event too
+                write_form(buf, out, e / 2)
+        };
+        let files = if tpl == "invalid" {
+            // the hook refuses the template with the error the real builder logs ...
+            match emit_file::verif::dir_prefix_ext(&template) {
+                Err(e) => {
+                    use std::error::Error;
+                    if format!("{e}").is_empty() || format!("{e:?}").is_empty() || e.source().is_some() {
+                        tool_error(&format!("the error of an invalid template: display {e}, debug {e:?}"));
+                    }
                 }
-            },
-            cap,
-        )
-        .unwrap_or_else(|e| tool_error(&format!("spawn_with failed: {e}")));
+                Ok(parts) => tool_error(&format!("dir_prefix_ext accepted {template}: {parts:?}")),
+            }
+            // ... and the real builder returns an emitter all the same
+            let b = emit_file::set_with_writer(&template, writer, sep_static).reuse_files(reuse).max_files(max_files).max_file_size_bytes(max_size);
+            match lex.roll {
+                VerifRollBy::Minute => b.roll_by_minute(),
+                VerifRollBy::Hour => b.roll_by_hour(),
+                VerifRollBy::Day => b.roll_by_day(),
+            }
+            .spawn()
+        } else {
+            emit_file::verif::spawn_with(MemFs(state.clone()), EnvClock(env.clone()), EnvRng(env.clone()), &template, lex.roll, reuse, max_files, max_size, sep_static, writer, cap)
+                .unwrap_or_else(|e| tool_error(&format!("spawn_with failed: {e}")))
+        };
+        // inert: the build failed (counted) and there is no channel
+        let inert = metric(&files, "configuration_failed").unwrap_or(0) > 0 && metric(&files, "file_queue_length").is_none();
         let files = Arc::new(files);
 
         // the emitting threads' programs
@@ -1378,7 +1511,9 @@ pub mod inj {
                     slot.0.store(epoch.elapsed().as_micros() as u64 + 1, Ordering::SeqCst);
                     files.emit(emit::evt!("e", id: e));
                     slot.0.store(0, Ordering::SeqCst);
-                    if wfail_every > 0 && e % wfail_every == 0 {
+                    if inert {
+                        log(&trace, json!({"ev": "Discard", "e": e}));
+                    } else if wfail_every > 0 && e % wfail_every == 0 {
                         log(&trace, json!({"ev": "FormatFail", "e": e, "kind": wfail_kind}));
                     } else {
                         log(&trace, json!({"ev": "Emit", "e": e}));
@@ -1455,19 +1590,19 @@ pub mod inj {
             std::thread::sleep(Duration::from_micros(100));
         }
         let _ = fin.join();
-        let truncated = metric(&files, "file_queue_full_truncated").unwrap_or(usize::MAX >> 8);
+        let truncated = metric(&files, "file_queue_full_truncated").unwrap_or(if inert { 0 } else { usize::MAX >> 8 });
         let format_failed = metric(&files, "event_format_failed").unwrap_or(usize::MAX >> 8);
         log(&trace, json!({"ev": "Fin", "truncated": truncated, "formatFailed": format_failed}));
         // shut the worker down before the next scenario
         drop(files);
         let t = Instant::now();
-        while !hooks.exec_returned.load(Ordering::SeqCst) && t.elapsed() < Duration::from_secs(10) {
+        while !inert && !hooks.exec_returned.load(Ordering::SeqCst) && t.elapsed() < Duration::from_secs(10) {
             if gate.is_stalled() {
                 gate.release();
             }
             std::thread::sleep(Duration::from_micros(200));
         }
-        if !hooks.exec_returned.load(Ordering::SeqCst) {
+        if !inert && !hooks.exec_returned.load(Ordering::SeqCst) {
             tool_error("the worker thread of the previous scenario did not exit");
         }
         *hooks.trace.lock().unwrap() = None;
@@ -1475,7 +1610,7 @@ pub mod inj {
         let mut evs = std::mem::take(&mut *trace.lock().unwrap());
         evs.sort_by_key(|e| e.0);
         writeln!(out, "{}", json!({"ev": "reset", "sid": sid, "cap": cap, "maxFiles": max_files, "maxSize": max_size,
-            "reuse": reuse, "lex": lex.label, "scen": scen})).unwrap();
+            "reuse": reuse, "lex": lex.label, "inert": inert, "wide": wide, "scen": {"sep": scen["sep"], "tpl": scen["tpl"]}})).unwrap();
         for (_, v) in &evs {
             writeln!(out, "{}", v).unwrap();
         }
@@ -1510,7 +1645,12 @@ pub mod inj {
             events += m.events;
             emits += m.emits;
             flushes += m.flushes;
-            index.push(json!({"sid": sid, "scen": line["scen"], "events": m.events, "wall_ms": m.wall_ms as u64}));
+            let mut sc = line["scen"].clone();
+            if let Some(o) = sc.as_object_mut() {
+                o.remove("framing");
+                o.remove("sepBytes");
+            }
+            index.push(json!({"sid": sid, "scen": sc, "events": m.events, "wall_ms": m.wall_ms as u64}));
         });
         writeln!(out, "{}", json!({"ev": "fin"})).unwrap();
         out.flush().unwrap();
@@ -1648,6 +1788,9 @@ pub mod prod {
     }
 
     pub struct ProdResult {
+        /// a separator other than the one-byte default: records of SEP_REC bytes
+        pub wide: bool,
+        pub max_size: usize,
         pub trace: Vec<Value>,
         pub json: bool,
         pub final_tokens: Vec<Vec<i64>>,
@@ -1662,19 +1805,50 @@ pub mod prod {
         let lexes = lexes();
         // entry points / template forms: 0 set_with_writer, 1 set().writer(), 2 set() with the
         // default JSON writer, 3 a template without extension (".log" is implied), 4 / 5 an
-        // invalid template (no file name / not UTF-8): the set must then touch nothing at all
-        let lex = lexes[if entry == 3 { 0 } else { entry % lexes.len() }].clone();
+        // invalid template (no file name / not UTF-8): the set must then touch nothing at all;
+        // 6 a template without a directory (a bare `prefix.ext`, relative to the current
+        // directory, which the caller has set to `scratch`): a set like any other; 7 a template
+        // whose directory cannot exist (a regular file is in the way): nothing is touched
+        let lex = lexes[if entry == 3 || entry >= 6 { 0 } else { entry % lexes.len() }].clone();
         let json = entry == 2 || entry == 5;
-        let invalid = entry >= 4;
+        let invalid = entry == 4 || entry == 5 || entry == 7;
+        let bare = entry == 6;
+        // the separator the set is configured with and, per event, how its writer ends its output
+        // and the complete record spec/FileWorker.tla predicts (Queued)
+        let syms = |v: &Value| -> Vec<String> { v.as_array().map(|a| a.iter().filter_map(|x| x.as_str().map(String::from)).collect()).unwrap_or_else(|| vec!["x".into(), "lf".into()]) };
+        let sep_bytes: Vec<u8> = if json { b"\n".to_vec() } else { tail_bytes(&syms(&case["sep"])) };
+        let wide = sep_bytes != b"\n";
+        let sep_static: &'static [u8] = if wide { Box::leak(sep_bytes.clone().into_boxed_slice()) } else { b"\n" };
+        let mut plan: HashMap<i64, (Vec<u8>, Vec<u8>)> = HashMap::new();
+        for op in case["hist"].as_array().unwrap() {
+            if op["op"] == "batch" {
+                let (ot, rt) = (tail_bytes(&syms(&op["out"])), tail_bytes(&syms(&op["rec"])));
+                for e in op["evs"].as_array().unwrap() {
+                    let e = e.as_i64().unwrap();
+                    let total = if wide { SEP_REC } else { EV_SIZE[(e - 1) as usize] };
+                    plan.entry(e).or_insert_with(|| ev_forms(e, &ot, &rt, total));
+                }
+            }
+        }
+        let expected: Vec<(i64, Vec<u8>)> = plan.iter().map(|(e, f)| (*e, f.1.clone())).collect();
+        let plan = Arc::new(plan);
+        let tokens_bytes = |b: &[u8]| if wide { tokens_with(b, &expected, &sep_bytes) } else { tokens_of(b) };
         let max_files = case["maxFiles"].as_u64().unwrap() as usize;
         let model_max = case["maxSize"].as_u64().unwrap() as usize;
         // the default writer's records are JSON_LEN bytes: the limits become "always over",
         // "two records (and a separator)", "never"
-        let max_size = if !json { model_max } else { match model_max { 1 => 1, 8 => 2 * JSON_LEN + 2, _ => 100_000 } };
+        let rec_len = if json { JSON_LEN } else { SEP_REC };
+        let max_size = if !json && !wide { model_max } else { match model_max { 1 => 1, 8 => 2 * rec_len + 2, _ => 100_000 } };
         let reuse = case["reuse"].as_bool().unwrap();
         let _ = std::fs::remove_dir_all(scratch);
-        let dir = scratch.join(lex.dir);
+        let dir = if bare { scratch.to_path_buf() } else { scratch.join(lex.dir) };
         std::fs::create_dir_all(&dir).unwrap_or_else(|e| tool_error(&format!("mkdir {dir:?}: {e}")));
+        if bare {
+            std::env::set_current_dir(&dir).unwrap_or_else(|e| tool_error(&format!("chdir {dir:?}: {e}")));
+        }
+        if entry == 7 {
+            std::fs::write(dir.join("blocker"), b"not a directory\n").unwrap();
+        }
         for f in &lex.foreign {
             std::fs::write(dir.join(f), format!("foreign {f}\n")).unwrap();
         }
@@ -1695,9 +1869,12 @@ pub mod prod {
             3 => dir.join(lex.prefix),
             4 => dir.join(".."),
             5 => dir.join(std::ffi::OsString::from_vec(vec![0xff, b'.', b'l', b'o', b'g'])),
+            6 => PathBuf::from(format!("{}.{}", lex.prefix, lex.ext)),
+            7 => dir.join("blocker").join(format!("{}.{}", lex.prefix, lex.ext)),
             _ => dir.join(format!("{}.{}", lex.prefix, lex.ext)),
         };
         let spawn = || -> emit_file::FileSet {
+            let plan = plan.clone();
             let writer = move |buf: &mut emit_file::FileBuf, evt: &emit::Event<&dyn emit::props::ErasedProps>| -> io::Result<()> {
                 use emit::Props;
                 let e = evt.props().pull::<i64, _>("id").unwrap_or(0);
@@ -1709,16 +1886,15 @@ pub mod prod {
                 if fail != 0 {
                     return Err(io::Error::new(io::ErrorKind::Other, "cannot format"));
                 }
-                let bytes = ev_bytes(e);
-                if e % 2 == 0 {
-                    write_form(buf, &bytes[..bytes.len() - 1], e + entry as i64)
-                } else {
-                    write_form(buf, &bytes, e + entry as i64)
+                // the output the specification chose for this event, handed over in varying forms
+                match plan.get(&e) {
+                    Some((out, _)) => write_form(buf, out, e + entry as i64),
+                    None => write_form(buf, &ev_bytes(e), e + entry as i64),
                 }
             };
             let b = match entry {
-                0 | 3 | 4 => emit_file::set_with_writer(&template, writer, b"\n"),
-                1 => emit_file::set(&template).writer(writer, b"\n"),
+                0 | 3 | 4 | 6 | 7 => emit_file::set_with_writer(&template, writer, sep_static),
+                1 => emit_file::set(&template).writer(writer, sep_static),
                 _ => emit_file::set(&template),
             };
             let b = match lex.roll {
@@ -1781,7 +1957,7 @@ pub mod prod {
                     ));
                 }
             }
-            let flushed = f.blocking_flush(Duration::from_secs(20));
+            let flushed = f.blocking_flush(Duration::from_secs(40));
             let t_after = now_ms();
             let now = snapshot(&dir);
             let mut iv = Interval { kind: if kind == "batch" { "batch" } else { "fmtfail" }, evs, t_before, t_after, removed: vec![], created: vec![], appended: vec![], foreign_touched: vec![], flushed };
@@ -1794,7 +1970,7 @@ pub mod prod {
                     Some(_) if is_foreign => iv.foreign_touched.push(name.clone()),
                     Some(new) => {
                         let toks = if new.starts_with(old) {
-                            if json { tokens_json(&new[old.len()..]) } else { tokens_of(&new[old.len()..]) }
+                            if json { tokens_json(&new[old.len()..]) } else { tokens_bytes(&new[old.len()..]) }
                         } else {
                             vec![GARBAGE]
                         };
@@ -1809,7 +1985,7 @@ pub mod prod {
                 if !prev.contains_key(name) {
                     iv.created.push(name.clone());
                     if !new.is_empty() {
-                        iv.appended.push((name.clone(), if json { tokens_json(new) } else { tokens_of(new) }));
+                        iv.appended.push((name.clone(), if json { tokens_json(new) } else { tokens_bytes(new) }));
                     }
                 }
             }
@@ -1851,10 +2027,11 @@ pub mod prod {
             ids.sort();
             ids.dedup();
             let (ci, ii) = (counters.iter().position(|x| x == c).unwrap(), ids.iter().position(|x| x == id).unwrap());
-            if ci > 9 || ii > 9 {
+            if (ci > 9 || ii > 9) && !bare {
                 tool_error("production run: more than ten files in a period");
             }
-            pidx(p) * 100 + ci as i64 * 10 + ii as i64
+            // (a bare template: more files than the model has names for are folded onto the last)
+            pidx(p) * 100 + ci.min(9) as i64 * 10 + ii.min(9) as i64
         };
 
         let mut trace = Vec::new();
@@ -1890,7 +2067,7 @@ pub mod prod {
                 }
                 last_ms = (ni / 10) % 10;
             }
-            let bytes: usize = iv.evs.iter().map(|e| if json { JSON_LEN } else { EV_SIZE[(*e - 1) as usize] }).sum();
+            let bytes: usize = iv.evs.iter().map(|e| if json { JSON_LEN } else if wide { SEP_REC } else { EV_SIZE[(*e - 1) as usize] }).sum();
             trace.push(json!({"ev": "begin", "evs": iv.evs, "bytes": bytes, "p": p, "ms": ms}));
             let call = |op: &str, n: i64, tok: i64| json!({"ev": "call", "op": op, "n": n, "tok": tok, "res": "ok"});
             for f in &iv.foreign_touched {
@@ -1916,7 +2093,7 @@ pub mod prod {
         let mut final_tokens: Vec<(i64, Vec<i64>)> = prev
             .iter()
             .filter(|(n, _)| !lex.foreign.contains(*n))
-            .map(|(n, b)| (name_int(n), if json { tokens_json(b) } else { tokens_of(b) }))
+            .map(|(n, b)| (name_int(n), if json { tokens_json(b) } else { tokens_bytes(b) }))
             .collect();
         final_tokens.sort();
         // two files created in the same millisecond are ordered by their random ids (finding
@@ -1924,7 +2101,7 @@ pub mod prod {
         let mut ticks: Vec<(&String, u64)> = parsed.values().map(|x| (&x.0, x.1)).collect();
         ticks.sort();
         let tie = ticks.windows(2).any(|w| w[0] == w[1]);
-        ProdResult { invalid, tie, trace, json, final_tokens: final_tokens.into_iter().map(|x| x.1).collect(), flush_failed, retry: p_start != p_end, ops }
+        ProdResult { wide, max_size, invalid, tie, trace, json, final_tokens: final_tokens.into_iter().map(|x| x.1).collect(), flush_failed, retry: p_start != p_end, ops }
     }
 
     /// args: <cases.ndjson> <traces-bytes.ndjson> <traces-json.ndjson> <report.json> <scratch dir> <threads>
@@ -1932,9 +2109,11 @@ pub mod prod {
         use std::io::{BufRead, Write};
         let args: Vec<String> = std::env::args().collect();
         if args.len() < 7 {
-            tool_error("usage: <cases.ndjson> <traces-bytes.ndjson> <traces-json.ndjson> <report.json> <scratch dir> <threads>");
+            tool_error("usage: <cases.ndjson> <traces-bytes.ndjson> <traces-json.ndjson> <report.json> <scratch dir> <threads> [only-entry]");
         }
         let nthreads: usize = args[6].parse().unwrap_or(4);
+        // --replay: only this entry point / template form, for every given case
+        let only_entry: Option<usize> = args.get(7).and_then(|s| s.parse().ok());
         quiet_panics();
         if JSON_LEN != json_line(1).len() {
             tool_error("JSON_LEN does not match the reference record");
@@ -1958,16 +2137,25 @@ pub mod prod {
                             continue;
                         }
                         let case: Value = serde_json::from_str(text).unwrap_or_else(|e| tool_error(&format!("bad json: {e}")));
-                        for entry in 0..6 {
-                            // the extension-less and the invalid templates: every tenth case
-                            if entry >= 3 && i % 10 != entry {
+                        let wide_case = case["sepf"].as_str().map_or(false, |f| f != "nl");
+                        for entry in 0..8 {
+                            // one of the three entry points per case, in turn (the default JSON
+                            // writer has its own separator); the extension-less and the invalid
+                            // templates: every tenth case
+                            let skip = if wide_case { entry != i % 2 } else if entry < 3 { entry != i % 3 } else { i % 10 != entry };
+                            if only_entry.map_or(skip, |o| o != entry) {
+                                continue;
+                            }
+                            // a bare template needs the process's current directory: run below
+                            if entry == 6 {
                                 continue;
                             }
                             let d = scratch.join(format!("c{i}-{entry}"));
                             let mut r = run_prod(&case, entry, &d);
                             let mut tries = 0;
-                            while r.retry && tries < 3 {
+                            while (r.retry || r.flush_failed) && tries < 3 {
                                 // the real clock left its period during the run: the case assumes it stays
+                                // (or the machine was too loaded for a flush to finish in time)
                                 r = run_prod(&case, entry, &d);
                                 tries += 1;
                             }
@@ -1980,13 +2168,44 @@ pub mod prod {
             }
             hs.into_iter().map(|h| h.join().unwrap_or_else(|_| tool_error("production thread panicked"))).collect()
         });
+        // templates without a directory: one at a time, each in its own current directory
+        let mut results = results;
+        let home = std::env::current_dir().unwrap_or_else(|e| tool_error(&format!("cwd: {e}")));
+        let scratch_abs = if scratch.is_absolute() { scratch.clone() } else { home.join(&scratch) };
+        let mut bare_runs = Vec::new();
+        let t_bare = std::time::Instant::now();
+        for (i, text) in lines.iter().enumerate() {
+            // (one at a time: every tenth case)
+            if only_entry.map_or(i % 10 != 6, |o| o != 6) {
+                continue;
+            }
+            let case: Value = serde_json::from_str(text).unwrap_or_else(|e| tool_error(&format!("bad json: {e}")));
+            if case["sepf"].as_str().map_or(false, |f| f != "nl") && only_entry.is_none() {
+                continue;
+            }
+            let d = scratch_abs.join(format!("c{i}-6"));
+            let mut r = run_prod(&case, 6, &d);
+            let mut tries = 0;
+            while r.retry && tries < 3 {
+                r = run_prod(&case, 6, &d);
+                tries += 1;
+            }
+            std::env::set_current_dir(&home).unwrap_or_else(|e| tool_error(&format!("chdir back: {e}")));
+            let _ = std::fs::remove_dir_all(&d);
+            bare_runs.push((i + 1, 6usize, r, case));
+        }
+        results.push(bare_runs);
+        let bare_ms = t_bare.elapsed().as_millis() as u64;
         let mut tb = io::BufWriter::new(std::fs::File::create(&args[2]).unwrap());
         let mut tj = io::BufWriter::new(std::fs::File::create(&args[3]).unwrap());
+        // runs with a multi-byte separator (records of SEP_REC bytes): next to the byte-sized ones
+        let mut ts = io::BufWriter::new(std::fs::File::create(format!("{}.sep", args[2])).unwrap());
         let mut index = Vec::new();
         let mut ops: BTreeMap<String, u64> = BTreeMap::new();
         let (mut runs, mut flush_failed, mut skipped, mut pred_mismatch) = (0u64, 0u64, 0u64, 0u64);
         let entries = ["set_with_writer", "set().writer()", "set() default JSON writer", "template without extension",
-            "invalid template (no file name)", "invalid template (not UTF-8), default writer"];
+            "invalid template (no file name)", "invalid template (not UTF-8), default writer",
+            "template without directory", "directory cannot exist (a file is in the way)"];
         let mut mismatches: Vec<Value> = Vec::new();
         for (line, entry, r, case) in results.into_iter().flatten() {
             if r.retry {
@@ -1998,7 +2217,7 @@ pub mod prod {
             for o in &r.ops {
                 *ops.entry(o.clone()).or_default() += 1;
             }
-            let sid = line * 6 + entry;
+            let sid = line * 8 + entry;
             // level B's prediction of the final directory, files in name order (byte-sized runs only)
             if !r.json && !r.tie && !r.invalid {
                 let mut want: Vec<(i64, Vec<i64>)> = case["files"].as_array().unwrap().iter().map(|f| {
@@ -2015,19 +2234,21 @@ pub mod prod {
                     }
                 }
             }
-            let max_size = if !r.json { case["maxSize"].as_u64().unwrap() as usize } else { match case["maxSize"].as_u64().unwrap() { 1 => 1, 8 => 2 * JSON_LEN + 2, _ => 100_000 } };
-            let w = if r.json { &mut tj } else { &mut tb };
+            let max_size = r.max_size;
+            let w = if r.json { &mut tj } else if r.wide { &mut ts } else { &mut tb };
             writeln!(w, "{}", json!({"ev": "reset", "sid": sid, "maxFiles": case["maxFiles"], "maxSize": max_size})).unwrap();
             for e in &r.trace {
                 writeln!(w, "{}", e).unwrap();
             }
-            index.push(json!({"sid": sid, "line": line, "entry": entries[entry], "events": r.trace.len()}));
+            index.push(json!({"sid": sid, "line": line, "entry": entries[entry], "events": r.trace.len(), "sepf": case["sepf"], "flush_failed": r.flush_failed}));
         }
         writeln!(tb, "{}", json!({"ev": "fin"})).unwrap();
         writeln!(tj, "{}", json!({"ev": "fin"})).unwrap();
+        writeln!(ts, "{}", json!({"ev": "fin"})).unwrap();
+        ts.flush().unwrap();
         tb.flush().unwrap();
         tj.flush().unwrap();
         std::fs::write(&args[4], serde_json::to_string(&json!({"runs": runs, "flush_failed": flush_failed, "skipped_period_change": skipped,
-            "prediction_mismatch": pred_mismatch, "mismatches": mismatches, "ops": ops, "index": index, "entries": entries})).unwrap()).unwrap();
+            "prediction_mismatch": pred_mismatch, "bare_ms": bare_ms, "mismatches": mismatches, "ops": ops, "index": index, "entries": entries})).unwrap()).unwrap();
     }
 }
